@@ -243,7 +243,20 @@ class Unit:
         self.kani_harnesses = lambda c, pr: need.get(pr.name, [])
         try:
             if need:
-                self.kani_all(ctx, [p for p in run_progs if p.name in need])
+                # two stages: the cheap programs first; if a twin already fails there, the verdict is a violation and the expensive
+                # twins (generic payloads, String-holding capture variants) are not needed
+                todo_p = [p for p in run_progs if p.name in need]
+                def cost(p):
+                    return (any(f.ty in ('Cap', 'T') or f.ty.startswith('&') for v in p.variants for f in v.fields), len(p.variants))
+                todo_p.sort(key=cost)
+                cut = max(4, len(todo_p) // 2)
+                first, rest = todo_p[:cut], todo_p[cut:]
+                n0 = len(ctx.obligations)
+                self.kani_all(ctx, first)
+                if rest and not any(o.status == 'failed' for o in ctx.obligations[n0:]):
+                    self.kani_all(ctx, rest)
+                elif rest:
+                    ctx.log('kani fallback: a twin of the first stage failed; %d more programs not run' % len(rest))
         finally:
             self.kani_harnesses = saved_h
         for p in run_progs:
